@@ -304,12 +304,12 @@ func writeEvidence(path, pid, tier string, seed int, results []*FuncResult, all 
 		o := all[0]
 		samples = append(samples, map[string]any{"obligation": o.Name, "clause": o.Text, "verdict": o.Verdict})
 	}
-	var assumptions []string
+	assumptions := []string{}
 	for n := range notes {
 		assumptions = append(assumptions, n)
 	}
 	sort.Strings(assumptions)
-	var nond []any
+	nond := []any{}
 	for _, o := range all {
 		if o.Verdict != "DISCHARGED" {
 			nond = append(nond, map[string]any{"obligation": o.Name, "verdict": o.Verdict, "clause": o.Text})
